@@ -116,7 +116,61 @@ func genWallet(g *vlib.Rng) WCfg {
 		w.HdPath = []string{"m/0'", "m/44'/0'/0'/0", "m/84'/0'/0'/0/5", "m/0/1"}[g.Intn(4)]
 	}
 	w.Minsig = g.Chance(1, 8)
+	if g.Chance(1, 3) {
+		w.Others = genOthers(g, w.Testnet, 1+g.Intn(3), -1)
+	}
 	return w
+}
+
+// genOthers: the lines of a .others file with n imported raw keys (built with the repo's own btc.NewPrivateAddr /
+// PrivateAddr.String): each key in the compressed or the uncompressed WIF form (uncomprMask: bit k set = key k is
+// uncompressed; -1 = random), with or without a label, now and then with the OTHER network's version byte (the
+// wallet only warns and loads it); comment lines, empty lines and a line that does not decode (skipped by the wallet)
+// in between. The wallet puts these keys in front of the deterministic ones.
+func genOthers(g *vlib.Rng, testnet bool, n int, uncomprMask int) []string {
+	var ls []string
+	junk := func() {
+		switch g.Intn(8) {
+		case 0:
+			ls = append(ls, "# imported keys")
+		case 1:
+			ls = append(ls, "")
+		case 2:
+			ls = append(ls, "5HueCGU8rMjxEXxiPuD5BDku4MkFqeZyd4dZ1jvhTVqvbTLvyTx label of an undecodable line") // checksum error
+		}
+	}
+	for k := 0; k < n; k++ {
+		junk()
+		key := append([]byte{byte(1 + g.Intn(200))}, g.Bytes(31)...) // below the group order
+		ver := byte(0x80)
+		if testnet != g.Chance(1, 8) {
+			ver = 0xef
+		}
+		uncompr := g.Bool()
+		if uncomprMask >= 0 {
+			uncompr = uncomprMask&(1<<uint(k)) != 0
+		}
+		l := btc.NewPrivateAddr(key, ver, !uncompr).String()
+		if g.Bool() {
+			l += fmt.Sprintf(" imported %d", k)
+		}
+		if g.Chance(1, 6) {
+			l = " " + l
+		}
+		ls = append(ls, l)
+	}
+	junk()
+	return ls
+}
+
+// randOwn: an output script the wallet owns - any of the four types for a compressed key, P2PKH for a key that is
+// not compressed (it has no SegWit form).
+func randOwn(g *vlib.Rng, pubs [][]byte) []byte {
+	kind, pub := ownKinds[g.Intn(4)], pubs[g.Intn(len(pubs))]
+	if len(pub) != 33 {
+		kind = "p2pkh"
+	}
+	return ownScript(kind, pub)
 }
 
 func randScript(g *vlib.Rng, kind string) []byte {
@@ -219,7 +273,7 @@ func genPlans(g *vlib.Rng, pubs [][]byte, n int) []coinPlan {
 		if g.Chance(1, 6) {
 			sc = randScript(g, destKinds[g.Intn(5)]) // foreign
 		} else {
-			sc = ownScript(ownKinds[g.Intn(4)], pubs[g.Intn(len(pubs))])
+			sc = randOwn(g, pubs)
 		}
 		ps = append(ps, coinPlan{sc, pickValue(g)})
 	}
@@ -236,7 +290,7 @@ func addrOf(scr []byte, testnet bool) string {
 
 func destScript(g *vlib.Rng, pubs [][]byte) []byte {
 	if g.Chance(1, 5) {
-		return ownScript(ownKinds[g.Intn(4)], pubs[g.Intn(len(pubs))])
+		return randOwn(g, pubs)
 	}
 	return randScript(g, destKinds[g.Intn(len(destKinds))])
 }
@@ -402,7 +456,7 @@ func genSend(g *vlib.Rng, name string, op sendOpts) *Case {
 		sc := randScript(g, destKinds[g.Intn(len(destKinds))])
 		c.Change, c.ChangeScript = addrOf(sc, c.W.Testnet), hex.EncodeToString(sc)
 	case ch == 2 || (ch < 0 && g.Chance(1, 8)):
-		sc := ownScript(ownKinds[g.Intn(4)], pubs[g.Intn(len(pubs))])
+		sc := randOwn(g, pubs)
 		c.Change, c.ChangeScript = addrOf(sc, c.W.Testnet), hex.EncodeToString(sc)
 	}
 	ml := op.msgLen
@@ -631,7 +685,11 @@ func genMs(g *vlib.Rng, name string, w *WCfg) *Case {
 	c.Redeem = hex.EncodeToString(redeem)
 	plans := []coinPlan{{scrP2SH(h160(redeem)), pickValue(g)}}
 	if g.Bool() {
-		plans = append(plans, coinPlan{ownScript(ownKinds[g.Pick(0, 2, 3)], pubs[g.Intn(len(pubs))]), pickValue(g)})
+		kind, pub := ownKinds[g.Pick(0, 2, 3)], pubs[g.Intn(len(pubs))]
+		if len(pub) != 33 {
+			kind = "p2pkh"
+		}
+		plans = append(plans, coinPlan{ownScript(kind, pub), pickValue(g)})
 	}
 	genBalance(g, c, pubs, plans)
 	tx := new(btc.Tx)
@@ -692,6 +750,45 @@ func corpus() []*Case {
 				cs = append(cs, genSend(g, fmt.Sprintf("corpus/grid-type%d-%s-tn%v", typ, at, tn), op))
 			}
 		}
+	}
+	// imported raw keys (.others) in front of the deterministic ones: compressed and uncompressed forms in every
+	// position pattern of up to two imported keys, every atype; one coin of every type each key has, all spent at once
+	// (an uncompressed key has a P2PKH address only and no entry in the wallet's SegWit table)
+	for _, at := range atypes {
+		for mask := 0; mask < 6; mask++ { // 0,1: one key (compressed / uncompressed); 2..5: two keys, mask-2 = uncompressed bits
+			n, um := 1, mask
+			if mask >= 2 {
+				n, um = 2, mask-2
+			}
+			wo := WCfg{Type: 3 + mask%2, Testnet: mask == 3, Atype: at, Keycnt: 3, Pass: "corpus pass", Seed: "co"}
+			wo.Others = genOthers(g, wo.Testnet, n, um)
+			po, err := walletPubkeys(&wo)
+			if err != nil {
+				fmt.Println("INFRA:", err)
+				os.Exit(3)
+			}
+			var plans []coinPlan
+			for k, pub := range po {
+				for j, kind := range ownKinds {
+					if kind == "p2pkh" || len(pub) == 33 {
+						plans = append(plans, coinPlan{ownScript(kind, pub), uint64(150000 + 1000*k + 10*j)})
+					}
+				}
+			}
+			op := defOpts()
+			op.w, op.plans, op.useAll, op.mode, op.ndest = &wo, plans, 1, 3, 2
+			op.rfc = mask % 2
+			cs = append(cs, genSend(g, fmt.Sprintf("corpus/others-%s-n%d-u%d", at, n, um), op))
+			if um == 1 { // minsig with an uncompressed key first: the legacy re-signing loop never ended before fix a0bc40ce
+				wm := wo
+				wm.Minsig = true
+				op.w, op.rfc = &wm, 0
+				cs = append(cs, genSend(g, fmt.Sprintf("corpus/others-minsig-%s-n%d", at, n), op))
+			}
+		}
+		wr := WCfg{Type: 3, Atype: at, Keycnt: 3, Pass: "corpus pass"}
+		wr.Others = genOthers(g, false, 2, 1)
+		cs = append(cs, genRaw(g, "corpus/raw-others-"+at, &wr))
 	}
 	w := WCfg{Type: 3, Atype: "p2kh", Keycnt: 4, Pass: "corpus pass"}
 	pubs, _ := walletPubkeys(&w)
